@@ -391,8 +391,30 @@ def r7_def_wrappers(prog, ctx):
         bad = None
         cfg = f.cfg
         cb = cfg.block_of(c)
+        def from_getter(e, at, depth=0):
+            """the expression is the getter's verdict handed on through copies (error = <inlined helper>.$ret; return error;)"""
+            e2 = e.strip()
+            if e2.k == "BinaryOperator" and e2.j.get("op") == "=":
+                return from_getter(e2.children[1], at, depth)
+            if e2 is c:
+                return True
+            if e2.k != "DeclRefExpr" or e2.j.get("dk") != "local" or depth > 6:
+                return False
+            ds = rd.reaching(e2.j["name"], at)
+
+            def refusal(d):
+                # `if (!ef) return ECONF_ERROR;` of an inlined helper: a failure code stored before the getter is called, behind a test of an argument
+                if d.rhs is None or d.node is None or d.rhs.const_value() in (None, 0) or cfg.block_of(d.node) in cfg.reachable(cb):
+                    return False
+                pn = [q["name"] for q in f.params]
+                okp, cutp = cfg.all_paths_cut(cfg.block_of(d.node), lambda lit, b, i: lit is not None and lit.kind == "truth" and not lit.pol and lit.atom in pn)
+                return bool(okp and cutp)
+            return bool(ds) and all(d.node is up or refusal(d) or (d.rhs is not None and d.node is not None and from_getter(d.rhs, d.node, depth + 1)) for d in ds) \
+                and any(not refusal(d) for d in ds)
         for r in f.returns():
             if cb not in cfg.reachable(cfg.block_of(r), forward=False):
+                continue
+            if r.children and render(r.children[0]) != var and from_getter(r.children[0], r):
                 continue
             if not r.children or render(r.children[0]) != var:
                 # an argument refusal (`if (result == NULL) return ECONF_ARGUMENT_IS_NULL_VALUE;`, an allocation failure) is not a verdict about the text
